@@ -12,7 +12,10 @@ package main
 // every Hash() result, every Commit() result and the database content after Commit must not depend on the permutation.
 
 import (
+	"crypto/sha256"
+	"encoding/hex"
 	"fmt"
+	"sort"
 
 	"verif/kv"
 	"verif/minichain"
@@ -127,7 +130,7 @@ func openStateDB(db dbm.DB, isTrie bool, height uint64) state.Database {
 // replay applies the recorded operations of one trie, with segment seg (index into the segments) permuted by perm, to
 // a fresh trie over a fresh copy of pre; returns the marker results and the database dump after the last Commit.
 func replay(pre dbm.DB, isTrie bool, height uint64, tr *trieRec, segs [][2]int, seg int, perm []int) (markers []common.Hash, dump string, err error) {
-	db := copyDB(pre)
+	db := newOvDB(pre)
 	sdb := openStateDB(db, isTrie, height)
 	var t state.Trie
 	if tr.storage {
@@ -191,7 +194,91 @@ func replay(pre dbm.DB, isTrie bool, height uint64, tr *trieRec, segs [][2]int, 
 		}
 		return markers, hashOf(s), nil
 	}
-	return markers, dumpDB(db, skipKVH), nil
+	return markers, db.dump(), nil
+}
+
+// ovDB is a copy-on-write view of a read-only base database: reads fall through to the base, writes and deletes stay in
+// the overlay. What a replay leaves in the overlay IS the write set of its Commit (millions of replays: copying and
+// hashing the whole pre-state per replay would dominate the run).
+type ovDB struct {
+	*kv.CopyDB // the overlay (it also serves the iterator methods, which trie code does not use)
+	base       dbm.DB
+	dels       map[string]bool
+}
+
+func newOvDB(base dbm.DB) *ovDB { return &ovDB{kv.NewCopyDB(), base, map[string]bool{}} }
+
+func (d *ovDB) Load(k []byte) ([]byte, error) {
+	if d.dels[string(k)] {
+		return nil, kv.ErrNotFound
+	}
+	if d.CopyDB.MemDB.Has(k) {
+		return d.CopyDB.MemDB.Get(k), nil
+	}
+	return d.base.Load(k)
+}
+func (d *ovDB) Get(k []byte) []byte { v, _ := d.Load(k); return v }
+func (d *ovDB) Has(k []byte) bool {
+	if d.dels[string(k)] {
+		return false
+	}
+	return d.CopyDB.MemDB.Has(k) || d.base.Has(k)
+}
+func (d *ovDB) Exist(k []byte) (bool, error) { v, err := d.Load(k); return v != nil, err }
+func (d *ovDB) Set(k, v []byte)              { delete(d.dels, string(k)); d.CopyDB.Set(k, v) }
+func (d *ovDB) SetSync(k, v []byte)          { d.Set(k, v) }
+func (d *ovDB) Put(k, v []byte) error        { d.Set(k, v); return nil }
+func (d *ovDB) Delete(k []byte)              { d.dels[string(k)] = true; d.CopyDB.MemDB.Delete(cp(k)) }
+func (d *ovDB) DeleteSync(k []byte)          { d.Delete(k) }
+func (d *ovDB) Del(k []byte) error           { d.Delete(k); return nil }
+func (d *ovDB) NewBatch() dbm.Batch          { return &ovBatch{d: d} }
+
+type ovOp struct {
+	del  bool
+	k, v []byte
+}
+
+type ovBatch struct {
+	d   *ovDB
+	ops []ovOp
+	sz  int
+}
+
+func (b *ovBatch) Set(k, v []byte) { b.ops = append(b.ops, ovOp{false, cp(k), cp(v)}); b.sz += len(v) }
+func (b *ovBatch) Delete(k []byte) { b.ops = append(b.ops, ovOp{true, cp(k), nil}); b.sz++ }
+func (b *ovBatch) Write() {
+	for _, o := range b.ops {
+		if o.del {
+			b.d.Delete(o.k)
+		} else {
+			b.d.Set(o.k, o.v)
+		}
+	}
+}
+func (b *ovBatch) WriteSync()     { b.Write() }
+func (b *ovBatch) Commit() error  { b.Write(); return nil }
+func (b *ovBatch) ValueSize() int { return b.sz }
+func (b *ovBatch) Reset()         { b.ops, b.sz = nil, 0 }
+
+// dump: the write set (sets in key order, then deletes in key order).
+func (d *ovDB) dump() string {
+	h := sha256.New()
+	n := 0
+	it := d.CopyDB.Iterator(nil, nil)
+	for ; it.Valid(); it.Next() {
+		fmt.Fprintf(h, "%x=%x;", it.Key(), it.Value())
+		n++
+	}
+	it.Close()
+	var ds []string
+	for k := range d.dels {
+		ds = append(ds, k)
+	}
+	sort.Strings(ds)
+	for _, k := range ds {
+		fmt.Fprintf(h, "-%x;", k)
+	}
+	return fmt.Sprintf("%d sets %d deletes:%s", n, len(ds), hex.EncodeToString(h.Sum(nil)[:12]))
 }
 
 func orderCheck(res *caseResult, o *minichain.Chain, isTrie bool, b *types.Block, v *replica) {
@@ -266,13 +353,6 @@ func orderCheck(res *caseResult, o *minichain.Chain, isTrie bool, b *types.Block
 			tr.ops = tr.ops[:start]
 		}
 		// reference: recorded order; it must reproduce the recorded markers
-		ident := func(n int) []int {
-			p := make([]int, n)
-			for i := range p {
-				p[i] = i
-			}
-			return p
-		}
 		refM, refD, err := replay(pre, isTrie, o.Height(), tr, segs, -1, nil)
 		if err != nil {
 			hfail("order: %s: reference replay of the %s failed: %v", mode, what, err)
@@ -286,7 +366,6 @@ func orderCheck(res *caseResult, o *minichain.Chain, isTrie bool, b *types.Block
 				mi++
 			}
 		}
-		_ = ident
 		for si, s := range segs {
 			n := s[1] - s[0]
 			if n > res.Order.MaxSegment {
@@ -340,5 +419,3 @@ func opKeys(ops []trieOp) string {
 	}
 	return s
 }
-
-var _ = kv.NewCopyDB
